@@ -131,7 +131,13 @@ impl SocketSend for RepSocket {
                     if let Some(envelope) = self.envelope.take() {
                         message.prepend(&envelope);
                     }
-                    peer.send_queue.send(Message::Message(message)).await?;
+                    let sent = peer.send_queue.send(Message::Message(message)).await;
+                    drop(peer);
+                    if let Err(e) = sent {
+                        // The connection is gone: forget the peer.
+                        self.backend.peer_disconnected(&peer_id);
+                        return Err(e.into());
+                    }
                     Ok(())
                 } else {
                     Err(ZmqError::ReturnToSender {
